@@ -37,6 +37,42 @@ def run(an, rep, mod):
         "failures": [{"edit": M[i]["old"][:80], "detail": d[:300]} for i, s, d in out if s == "FAIL"],
         "skipped_edits": [M[i]["old"][:80] for i, s, d in out if s == "SKIPPED"],
     }
+    # (c) whole-tree behaviour-preserving transforms (re-emission by ast.unparse, black at two widths, renaming of locals): this check must stay silent
+    import shutil
+    import tempfile
+    from selftest import transforms as tr
+    tres = {}
+    for name in ("unparse", "black120", "black60", "rename"):
+        d_ = tempfile.mkdtemp(prefix="verif_tr_")
+        try:
+            shutil.copytree(os.path.join(an.prog.repo, "code_data"), os.path.join(d_, "repo", "code_data"), ignore=shutil.ignore_patterns("__pycache__", "_test_minimized"))
+            tr.transform(name, os.path.join(d_, "repo"))
+            env = dict(os.environ, VERIF_EVIDENCE_DIR=os.path.join(d_, "ev"))
+            r = subprocess.run([sys.executable, os.path.join(VERIF, "check"), rep.pid, "--repo", os.path.join(d_, "repo")], capture_output=True, text=True, env=env, timeout=900)
+            tres[name] = r.returncode
+            if r.returncode != 0:
+                print(f"SELFTEST-WEAKNESS property={rep.pid}: the behaviour-preserving transform '{name}' makes the check exit {r.returncode}")
+        finally:
+            shutil.rmtree(d_, ignore_errors=True)
+    rep.extra["selftest"]["behaviour_preserving_transforms_exit_codes"] = tres
+    # (d) the independently written seeded changes that target this property (seeded/<id>/patch.diff): each must make this check exit 1
+    import importlib.util
+    spec = importlib.util.spec_from_file_location("seeded_tool", os.path.join(VERIF, "tools", "seeded.py"))
+    st_mod = importlib.util.module_from_spec(spec)
+    spec.loader.exec_module(st_mod)
+    sres = {}
+    sdir = os.path.join(VERIF, "seeded")
+    ids = sorted(x for x in os.listdir(sdir) if x.startswith(rep.pid + "-") and os.path.exists(os.path.join(sdir, x, "meta.json")))
+    import concurrent.futures as cf
+    with cf.ThreadPoolExecutor(max_workers=8) as ex:
+        for sid, meta, res, err in ex.map(st_mod.run_one, [(i_, False, an.prog.repo) for i_ in ids]):
+            if res is None:
+                sres[sid] = "patch does not apply to the current tree"
+            else:
+                rc = res[rep.pid][0]
+                sres[sid] = {1: "caught", 0: "missed", 2: "not decided (analysis error)"}.get(rc, str(rc))
+    rep.extra["selftest"]["seeded_changes"] = sres
+    print(f"thorough: seeded changes for {rep.pid}: " + ", ".join(f"{k}={v}" for k, v in sres.items()))
     for i, s, d in out:
         if s == "FAIL":
             print(f"SELFTEST-WEAKNESS property={rep.pid}: edit #{i} ({M[i]['kind']}) not handled as expected: {d[:200]}")
